@@ -17,6 +17,8 @@ pub enum Error {
     MissingMapKey,
     #[error("number out of i64 range {0}")]
     OutOfI64RangeNumber(KNumber),
+    #[error("number out of {1} range {0}")]
+    OutOfRangeNumber(KNumber, &'static str),
     #[error("number out of u8 range {0}")]
     OutOfU8RangeNumber(KNumber),
     #[error("i128 out of i64 range {0}")]
